@@ -624,4 +624,99 @@ theorem unlock_ok_shape (fx : Bool) (A : Aead) (kdf : Kdf) (key base : Bytes) (p
               · have : p.length = h.originalSize := Decidable.not_not.mp hsz
                 exact this.symm
 
+/-! ### `lock` -/
+/-- the header `lock` writes -/
+def lockHeader (salt base f : Bytes) : Header :=
+  { salt := salt, nonce := base, originalSize := f.length, reserved := LOCK_RESERVED }
+
+theorem lock_inv (A : Aead) (kdf : Kdf) (pw salt base f c : Bytes) (h : lock A kdf pw salt base f = .ok c) :
+    4 ≤ f.length ∧ f.take 4 = MV2_MAGIC ∧
+    c = encodeHeader (lockHeader salt base f) ++ frames A (kdf pw salt) base 0 (chunks CHUNK_SIZE f) := by
+  unfold lock lockWith at h
+  split at h
+  · cases h
+  · split at h
+    · cases h
+    · rename_i h1 h2
+      simp only [Except.ok.injEq] at h
+      exact ⟨by omega, Decidable.not_not.mp h2, h.symm⟩
+
+theorem lock_of_valid (A : Aead) (kdf : Kdf) (pw salt base f : Bytes) (h1 : 4 ≤ f.length) (h2 : f.take 4 = MV2_MAGIC) :
+    lock A kdf pw salt base f =
+      .ok (encodeHeader (lockHeader salt base f) ++ frames A (kdf pw salt) base 0 (chunks CHUNK_SIZE f)) := by
+  unfold lock lockWith
+  have : ¬ f.length < 4 := by omega
+  simp only [this, if_false, h2, ne_eq, not_true_eq_false]
+  rfl
+
+theorem getElem?_of_prefix {α : Type} (qs r : List α) (m : Nat) (p : α) (h : qs[m]? = some p) : (qs ++ r)[m]? = some p := by
+  rcases List.getElem?_eq_some_iff.mp h with ⟨hlt, he⟩
+  rw [List.getElem?_append_left hlt]; exact h
+
+/-- the frames of a prefix of the chunks read back (ciphertexts fit the u32 length prefix) -/
+theorem good_of_ideal (A : Aead) (key base : Bytes) (ps qs r : List Bytes) (ideal : AeadIdeal A key base ps)
+    (hpre : qs ++ r = ps) (hle : ∀ c ∈ ps, c.length ≤ CHUNK_SIZE) : Good A key base 0 qs := by
+  intro m p hm
+  have hm' : ps[m]? = some p := by rw [← hpre]; exact getElem?_of_prefix qs r m p hm
+  simp only [Nat.zero_add]
+  refine ⟨ideal.correct m p hm', ?_⟩
+  rw [ideal.encLen m p hm']
+  have : p ∈ ps := List.mem_of_getElem? hm'
+  have := hle p this
+  rw [CHUNK_SIZE_eq] at this
+  rw [TAG_SIZE_eq]; omega
+
+theorem frames_piece_le (A : Aead) (key base : Bytes) (ps : List Bytes) (i m : Nat) (p : Bytes) (h : ps[m]? = some p) :
+    4 + (A.enc key (nonceFor base (i + m)) p).length ≤ (frames A key base i ps).length := by
+  induction ps generalizing i m with
+  | nil => simp at h
+  | cons q ps ih =>
+    cases m with
+    | zero =>
+      simp only [List.getElem?_cons_zero, Option.some.injEq] at h
+      subst h
+      simp only [frames, List.length_append, frame_length, Nat.add_zero]; omega
+    | succ m =>
+      simp only [List.getElem?_cons_succ] at h
+      have := ih (i + 1) m h
+      simp only [frames, List.length_append]
+      rw [show i + (m + 1) = i + 1 + m by omega]; omega
+
+theorem length_le_flatten (ps : List Bytes) (m : Nat) (p : Bytes) (hm : ps[m]? = some p) :
+    p.length ≤ ps.flatten.length := by
+  induction ps generalizing m with
+  | nil => simp at hm
+  | cons q qs ih =>
+    cases m with
+    | zero =>
+      simp only [List.getElem?_cons_zero, Option.some.injEq] at hm
+      subst hm; simp
+    | succ m =>
+      simp only [List.getElem?_cons_succ] at hm
+      have := ih m hm
+      simp only [List.flatten_cons, List.length_append]; omega
+
+/-- a chunk as long as the whole (non-empty pieces) is the whole -/
+theorem single_of_length (ps : List Bytes) (m : Nat) (p : Bytes) (hm : ps[m]? = some p)
+    (hne : ∀ c ∈ ps, c ≠ []) (hl : p.length = ps.flatten.length) : ps.flatten = p := by
+  cases ps with
+  | nil => simp at hm
+  | cons q qs =>
+    cases m with
+    | zero =>
+      simp only [List.getElem?_cons_zero, Option.some.injEq] at hm
+      subst hm
+      have : qs = [] := prefix_full_of_length [q] qs (fun c hc => hne c (by simp [hc])) (by
+        simp only [List.flatten_cons, List.flatten_nil, List.append_nil, List.cons_append, List.nil_append] at hl ⊢
+        exact hl)
+      subst this; simp
+    | succ m =>
+      exfalso
+      simp only [List.getElem?_cons_succ] at hm
+      have h1 := length_le_flatten qs m p hm
+      have hq : q ≠ [] := hne q (by simp)
+      have : 0 < q.length := List.length_pos_iff.mpr hq
+      simp only [List.flatten_cons, List.length_append] at hl
+      omega
+
 end Mv.Capsule
